@@ -83,6 +83,36 @@ def run(ctx):
     for bus, port_, tag in ((32, 32, "equal width"), (64, 32, "wider bus")):
         v = wb_view(ctx, bus, port_)
         ack_rules(ctx, ob1, v, tag)
+        if bus == port_:
+            # one data beat per command: with equal widths the write data may only be offered in the state entered after the write command
+            # was accepted (last assignment wins over the unconditional stb & we)
+            f_ = v.fsms("")[0]
+            wst = sorted({l.value.v for l in v.fsm_leaves(f_, f_.reset_state) if l.kind == "next" and isinstance(l.value, Const) and WE in v.guard_keys(l, False)})
+            ds_ = sorted(v.drivers("port.wdata.valid"), key=lambda l_: l_.order)
+            if ob1.need(len(wst) == 1 and bool(ds_), "%s: write state / port.wdata.valid drivers not found" % tag):
+                og = key(Op("call", (Sym("ongoing"), Sym("fsm"), Const(wst[0]))))
+                cands = []
+                for l in ds_:
+                    for t_ in [l.value] + [c_ for c_, _ in l.guards]:
+                        for st_ in subterms(t_):
+                            if isinstance(st_, Op) and key(st_).startswith("ongoing(") and wst[0] in key(st_):
+                                cands.append(key(st_))
+                ogk = cands[0] if cands else og
+                final = None          # can the winning assignment give 1 while the FSM is NOT in the write state?
+                for l in ds_:
+                    fires = leaf_fires(v, l, {ogk: False})
+                    if fires is False:
+                        continue
+                    val = eval3(l.value, {ogk: False})
+                    if fires is True:
+                        final = val
+                    else:
+                        final = None if (final is not False or val is not False) else False
+                ob1.instance("%s: write data offered outside the write state %s" % (tag, wst[0]), {"drivers": [str(l) for l in ds_], "possible": final is not False})
+                if final is not False:
+                    ob1.refute("%s:wdata-before-cmd" % tag, "%s: port.wdata.valid can be 1 while the bridge is not in state %s (%s): a port that takes write data before the "
+                               "command is accepted (any FIFO-fronted port) receives the beat twice - once in the command state and again in %s" %
+                               (tag, wst[0], [str(l) for l in ds_], wst[0]), ds_[0].loc)
         a = [l for l in v.leaves if l.kind == "assign" and key(l.target).endswith("port.cmd.addr") or (l.kind == "assign" and key(l.target) == "new_port.cmd.addr")]
         if ob4.need(len(a) >= 1, "%s: command address not found" % tag):
             val = a[0].value
@@ -240,4 +270,26 @@ def run(ctx):
                 ob1.instance("reverse bridge state %s exits" % st, [sorted(r.guard_keys(l, False)) for l in outs])
                 if not okk:
                     ob1.refute("reverse:%s" % st, "reverse bridge state %s is left without the Wishbone acknowledge" % st, outs[0].loc if outs else None)
+        # write cycles of the reverse bridge: a Wishbone write (stb with we) is started only with valid write data, takes its data / byte
+        # enables from the native write-data channel, and that channel is acknowledged exactly on the Wishbone acknowledge
+        wstb = [l for l in r.fsm_leaves(f2) if l.kind == "assign" and key(l.target) == "wishbone.stb" and is1(l.value)]
+        wwe = [l for l in r.fsm_leaves(f2) if l.kind == "assign" and key(l.target) == "wishbone.we" and is1(l.value)]
+        wstates = sorted({l.state for l in wwe})
+        for l in wstb:
+            if l.state in wstates:
+                g = r.guard_keys(l, False)
+                ob1.instance("reverse bridge write cycle (state %s)" % l.state, sorted(g))
+                if "port.wdata.valid" not in g:
+                    ob1.refute("reverse:write-without-data:%s" % l.state, "reverse bridge: the Wishbone write cycle is started under %s without port.wdata.valid: data and "
+                               "byte enables of a beat that is not there yet are written, and the real beat is never consumed (or pairs with the next command)" % sorted(g), l.loc)
+        if ob1.need(len(wstates) == 1, "reverse bridge write state not found"):
+            for tgt, src in (("wishbone.dat_w", "port.wdata.data"), ("wishbone.sel", "port.wdata.we")):
+                ds = [l for l in r.fsm_leaves(f2, wstates[0]) if l.kind == "assign" and key(l.target) == tgt]
+                if len(ds) != 1 or key(ds[0].value) != src:
+                    ob1.refute("reverse:write-payload:%s" % tgt, "reverse bridge: %s is driven by %s in the write state, expected %s" % (tgt, [key(l.value) for l in ds], src), ds[0].loc if ds else None)
+            rdy = [l for l in r.fsm_leaves(f2) if l.kind == "assign" and key(l.target) == "port.wdata.ready" and is1(l.value)]
+            ob1.instance("reverse bridge write-data acknowledge", [sorted(r.guard_keys(l, False)) for l in rdy])
+            if len(rdy) != 1 or not {"wishbone.ack", "port.wdata.valid"} <= r.guard_keys(rdy[0], False) or rdy[0].state != wstates[0]:
+                ob1.refute("reverse:wdata-ready", "reverse bridge: port.wdata.ready is asserted under %s, expected only on the Wishbone acknowledge of a cycle started with valid data" %
+                           [sorted(r.guard_keys(l, False)) for l in rdy], rdy[0].loc if rdy else None)
     ctx.assume("data values and memory-side timing are not decided; the address-width adjustment of the bridge is covered by C07.3")
